@@ -316,6 +316,57 @@ def placement(ctx):
     ctx.sample(sub, {"bad_kinds": list(kinds), "positions": 4, "dtypes": ["int16", "float32", "float64"], "grouped": [False, True]})
 
 
+def zero_share(ctx):
+    """The 90 % rule is about the share of zeros among the VALID observations.  Every pixel made of z zeros, the two
+    positives 3 and 8 and k invalid cells (nodata, negative, or both) for every z <= 40, k <= 20, in three
+    arrangements: more than 90 % zeros (z >= 19) -> nodata everywhere; otherwise every valid cell gets an index."""
+    sub = "zero_share"
+    by_len = {}
+    for z in range(0, 41):
+        for k in range(0, 21):
+            for inv_name, inv in (("nodata", [ND]), ("negative", [-4.0]), ("mixed", [ND, -4.0])):
+                if k == 0 and inv_name != "nodata":
+                    continue
+                invalid = [inv[t % len(inv)] for t in range(k)]
+                cells = {"zeros_first": [0.0] * z + [3.0, 8.0] + invalid,
+                         "invalid_first": invalid + [3.0] + [0.0] * z + [8.0],
+                         "interleaved": None}
+                a, b = [0.0] * z + [3.0, 8.0], list(invalid)
+                mix = []
+                while a or b:
+                    if a:
+                        mix.append(a.pop(0))
+                    if b:
+                        mix.append(b.pop(0))
+                cells["interleaved"] = mix
+                for arr_name, c in cells.items():
+                    by_len.setdefault(len(c), []).append((z, k, inv_name, arr_name, c))
+    for n, rows in sorted(by_len.items()):
+        if n < 3:
+            continue
+        x = np.array([r[4] for r in rows], dtype=np.float64)
+        for entry in ("yxt_i16", "yxt_f64", "grp_i16", "grp_f32"):
+            try:
+                out = run_entry(entry, x, 0, n)
+            except Exception as e:
+                ctx.violation(sub, {"entry": entry, "n": n}, {"kind": "zero_share"}, f"{entry} raised {type(e).__name__}: {e} on zero-share pixels of length {n}")
+                continue
+            for r, (z, k, inv_name, arr_name, c) in enumerate(rows):
+                valid = (x[r] != ND) & (x[r] >= 0)
+                unfittable = z / (z + 2) > 0.9
+                ctx.count(sub, evaluations=1, states=1, nontrivial=int(k > 0))
+                if unfittable:
+                    ok = (out[r] == ND).all()
+                    want = "nodata everywhere (more than 90 % of the valid cells are zero)"
+                else:
+                    ok = (out[r][valid] != ND).all() and (out[r][~valid] == ND).all()
+                    want = "an index for every valid cell and nodata for the others (at most 90 % of the valid cells are zero)"
+                if not ok:
+                    ctx.violation(sub, {"entry": entry, "zeros": z, "invalid": k, "invalid_kind": inv_name, "arrangement": arr_name}, {"kind": "zero_share"},
+                                  f"{entry}: pixel with {z} zeros, positives 3 and 8 and {k} {inv_name} cells ({arr_name}, length {n}) -> {out[r].tolist()}; expected {want}")
+    ctx.sample(sub, {"zeros": "0..40", "invalid_cells": "0..20 (nodata / negative / mixed)", "arrangements": ["zeros_first", "invalid_first", "interleaved"], "positives": [3, 8]})
+
+
 def run(ctx):
     st = _st()
     z = np.array([[[1, 2, 7, 30]]])
@@ -332,6 +383,7 @@ def run(ctx):
     ladders(ctx)
     fine_ladders(ctx)
     placement(ctx)
+    zero_share(ctx)
 
 
 def replay(sub, case, p):
@@ -349,5 +401,7 @@ def replay(sub, case, p):
         ladders(p)
     elif k == "fine":
         fine_ladders(p)
+    elif k == "zero_share":
+        zero_share(p)
     else:
         placement(p)
